@@ -2108,3 +2108,5 @@ def run(ctx):
     # ... and where the header block and the chunked message (trailers included) end
     c08.d5_header(RemapCtx(ctx, {'C08-D5': 'C04-D7'}))
     c08.d4_chunk(RemapCtx(ctx, {'C08-D4': 'C04-D7'}))
+    # ... and where a length-delimited body ends (the overrun cut needs a read that can see past the body)
+    c08.d3_length(RemapCtx(ctx, {'C08-D3': 'C04-D2'}))
